@@ -28,7 +28,7 @@ RULE = ("case = (requests before / at / after a closing message of one of 7 kind
         "worker was active, and the schedule has >= 1 pre-emption; distinct by case hash")
 ASSUMPTIONS = ["one thread at a time (GIL); pre-emption at sync points (and source lines in line mode)",
                "the close decision instant is the first assignment of close_when_flushed / will_close on the connection's channel"]
-KINDS = ["conn_close", "http10", "bad_framing", "oversize", "app_no_length_10", "app_short", "app_exc", "app_exc_mid", "none"]
+KINDS = ["conn_close", "http10", "bad_framing", "oversize", "app_no_length_10", "app_short", "app_exc", "app_exc_mid", "oversize_body", "none"]
 EXCS = ["ValueError", "OSError", "ConnectionResetError", "FileNotFoundError", "SystemExit"]
 
 
@@ -42,6 +42,8 @@ def req_bytes(i, kind=None):
         return "POST %s HTTP/1.1\r\nHost: h\r\nX-Conn: 0\r\nContent-Length: 3\r\nContent-Length: 4\r\n\r\nabc" % p
     if kind == "oversize":
         return "GET %s HTTP/1.1\r\nHost: h\r\nX-Conn: 0\r\nX-Pad: %s\r\n\r\n" % (p, "p" * 600)
+    if kind == "oversize_body":
+        return "POST %s HTTP/1.1\r\nHost: h\r\nX-Conn: 0\r\nContent-Length: 50\r\n\r\n%s" % (p, "b" * 50)
     if kind == "app_no_length_10":
         return "GET %s HTTP/1.0\r\nHost: h\r\nX-Conn: 0\r\nConnection: keep-alive\r\n\r\n" % p
     return "GET %s HTTP/1.1\r\nHost: h\r\nX-Conn: 0\r\n\r\n" % p
@@ -69,7 +71,7 @@ def to_scenario(case):
     behs = [dict(OK_BEH) for _ in range(n_before)]
     k = n_before
     pieces.append(req_bytes(k, kind))
-    calls_app_at_k = kind not in ("bad_framing", "oversize")
+    calls_app_at_k = kind not in ("bad_framing", "oversize", "oversize_body")
     if calls_app_at_k:
         behs.append(beh_for(kind, case.get("exc", "ValueError")))
     tail = []
@@ -94,6 +96,8 @@ def to_scenario(case):
     adj = {"threads": case.get("workers", 1), "channel_request_lookahead": case.get("lookahead", 0)}
     if kind == "oversize":
         adj["max_request_header_size"] = 400
+    if kind == "oversize_body":
+        adj["max_request_body_size"] = 10
     if "lse" in case:
         adj["log_socket_errors"] = bool(case["lse"])
     sc = {"adj": adj, "gran": case.get("gran", "sync"), "apps": behs, "sndbuf": case.get("sndbuf", 1 << 20),
